@@ -208,7 +208,15 @@ def make_rule(rid, select, acc_names, floor, what):
                 cnd_ = strip(a["c"])
                 for side in ([cnd_.get("l"), cnd_.get("r")] if cnd_.get("k") == "Binary" else list(cnd_.get("args", []))):
                     if side is not None and _indexed(side):
-                        cached = True
+                        # .. unless the term reads that very container too (`w[j] != 0` around `old - w[j]`): then the
+                        # tested value is in the term, and what else is in it is what this rule judges
+                        rl = set(z.get("local") for z in walk(side) if z.get("k") == "Path" and "local" in z and not (c.ty(z.get("t")) or "").strip().lstrip("&").startswith(("usize", "u32", "i32", "u64", "isize")))
+                        vl = set(z.get("local") for z in walk(val) if z.get("k") == "Path" and "local" in z)
+                        for l_ in list(vl):
+                            if l_ in block_inits:
+                                vl |= set(z.get("local") for z in walk(block_inits[l_]) if z.get("k") == "Path" and "local" in z)
+                        if not (rl & vl):
+                            cached = True
                 if v is False and cached:
                     v = None
                 if v is True:
